@@ -218,9 +218,55 @@ def api_source(root, main_header, with_json):
     return "\n".join(lines) + "\n"
 
 
+def same_base_name_scenario(ctx):
+    """Two imported files with one base name in different directories (`v1/msg.bitproto`, `v2/msg.bitproto`, both imported with
+    `as`): every schema file must get an output file of its own.  Observed on the real compiler: each file is compiled into the
+    same output directory and the bytes of `msg_bp.h` are compared before and after the second one (known finding
+    output-file-name-collision:same-base-name-in-different-directories)."""
+    res = ctx.res
+    rng = ctx.rng("same-base-name")
+    parse, _, render, _, errors = sut_compiler.bitproto_api()
+    top = ctx.casedir("samebase")
+    try:
+        w1, w2 = rng.choice([(8, 64), (3, 17), (16, 24)])
+        base = rng.choice(["msg", "common", "types"])
+        d1, d2 = rng.sample(["v1", "v2", "radio", "gps", "a/b"], 2)
+        texts = {f"{d1}/{base}.bitproto": f"proto {base}one\nmessage Hdr {{ uint{w1} id = 1 }}\n",
+                 f"{d2}/{base}.bitproto": f"proto {base}two\nmessage Hdr {{ uint{w2} id = 1 }}\n",
+                 "top.bitproto": f'proto top\nimport one "{d1}/{base}.bitproto"\nimport two "{d2}/{base}.bitproto"\nmessage Both {{ one.Hdr h1 = 1; two.Hdr h2 = 2 }}\n'}
+        for fn, t in texts.items():
+            os.makedirs(os.path.dirname(os.path.join(top, "src", fn)), exist_ok=True)
+            with open(os.path.join(top, "src", fn), "w") as fh:
+                fh.write(t)
+        od = os.path.join(top, "out")
+        os.makedirs(od)
+        wit = {"scenario": "same-base-name", "schema": texts}
+        written = {}
+        try:
+            with sut_compiler.quiet_stderr():
+                for fn in texts:
+                    outs = render(parse(os.path.join(top, "src", fn)), "c", outdir=od)
+                    for o in outs:
+                        data = open(o, "rb").read()
+                        if o in written and written[o][1] != data:
+                            res.violation("output-file-name-collision:same-base-name-in-different-directories",
+                                          f"{fn} and {written[o][0]} are both written to {os.path.basename(o)}: the second compilation replaced the first (the importer includes one file for both)", wit)
+                        written[o] = (fn, data)
+        except errors.ParserError as e:
+            res.count("same_base_name_scenario_rejected")  # a compiler that refuses the combination has no collision
+            return
+        res.count("same_base_name_scenarios")
+    finally:
+        shutil.rmtree(top, ignore_errors=True)
+
+
 def worker(ctx):
     res = ctx.res
     contracts.install()
+    if ctx.replay is None or ctx.replay["witness"].get("scenario") == "same-base-name":
+        same_base_name_scenario(ctx)
+        if ctx.replay is not None:
+            return
     if ctx.quick:
         n_cases = ctx.per_shard(192)
         ctx.set_budget(250)
